@@ -70,6 +70,9 @@ def build(ctx, rule):
             setattr(g, k, inline_callable_aliases(sink_into_branches(desugar_ifexp(f_))))
     for k in ("remove_edge", "remove_node", "add_node", "add_edge"):
         setattr(g, k, unroll_const_loops(tail_inlined(repo, hoist_calls(repo, getattr(g, k)), keep=lambda c: c.name in ("add_edge", "remove_edge", "add_node", "remove_node") or c.name.startswith(("add_from_", "remove_from_")))))
+    from ..core import inline_object_aliases
+
+    g.add_node = inline_object_aliases(g.add_node)  # `node_tags = node.tags; node_tags[k] = v` is a store into node.tags
     return g
 
 
